@@ -264,3 +264,30 @@ with surv_list (l : mnodes) : list Z :=
   | nnil => []
   | ncons t r => if fok t then surv_list r ++ surv t else surv t
   end.
+
+(* the same as a relation, in the words of the property: the marker's own action succeeded and every
+   enclosing action completed and every enclosing frame returned normally *)
+Inductive kept_in (m : Z) : mnode -> Prop :=
+| k_step e : m_ok e = true -> m_id e = m -> kept_in m (NStep e)
+| k_action b evs : fok_list b = true -> kept_in_list m b -> kept_in m (Action b evs)
+| k_frame b en c : frame_kept b en = true -> kept_in_list m b -> kept_in m (Frame b en c)
+with kept_in_list (m : Z) : mnodes -> Prop :=
+| k_here t r : kept_in m t -> kept_in_list m (ncons t r)
+| k_later t r : kept_in_list m r -> kept_in_list m (ncons t r).
+
+(* witnesses for the two well-formedness conditions (see P_Frames) *)
+Definition ex_unjournaled : mnodes :=
+  ncons (Frame (ncons (NStep (mkeff 1 true false)) nnil) Revert true) nnil.
+Definition ex_write_before_nested : mnodes :=
+  ncons (Frame (ncons (Action (ncons (NStep (mkeff 1 true false))
+                               (ncons (Frame (ncons (Action (ncons (NStep (mkeff 2 true false)) nnil) []) nnil) Return false)
+                               (ncons (NStep (mkeff 3 true false)) nnil))) []) nnil) Revert true) nnil.
+(* a transaction in which some effects survive and some do not *)
+Definition ex_mixed : mnodes :=
+  ncons (Write 1 7)
+ (ncons (Frame (ncons (Action (ncons (NStep (mkeff 10 true false)) (ncons (Log 110) nnil)) [10]) nnil) Return false)
+ (ncons (Frame (ncons (Write 1 8)
+               (ncons (Frame (ncons (Action (ncons (NStep (mkeff 11 true false)) (ncons (Log 111) nnil)) [11]) nnil) Return false)
+               (ncons (Log 5) nnil))) Revert true)
+ (ncons (Frame (ncons (Action (ncons (NStep (mkeff 12 false true)) nnil) []) nnil) Return true)
+ (ncons (Frame (ncons (Action (ncons (NStep (mkeff 13 true false)) (ncons (Log 113) nnil)) []) nnil) Return false) nnil)))).
